@@ -4,11 +4,11 @@ import os
 from hypothesis import strategies as st
 
 from harness import cbuild
-from harness.core import Sub, Violation, REPO, VERIF, Ctx
+from harness.core import Sub, Violation, Failure, REPO, VERIF, Ctx
 from refs import ref_ma
 
 RULE = ("cell allocation = subset of ARFCN 0..1023 of size 0..64 (with/without ARFCN 0, clustered / spread / band edges), bitmap "
-        "length 0..9, bitmap contents arbitrary but biased (single bits, all ones, bits just inside / just beyond |CA|, empty), "
+        "length 0..9 (plus 9..255, all of which must be refused: a fifth of the generated cases and a complete enumeration), bitmap contents arbitrary but biased (single bits, all ones, bits just inside / just beyond |CA|, empty), "
         "si4 flag, pre-existing hopping flags; the function text is sliced out of the working tree's sysinfo.c and compiled "
         "verbatim with ASan/UBSan, hopping[64], freq[1024], the bitmap and hopp_len each in an exact-size heap block. Oracle "
         "refs/ref_ma (TS 44.018 10.5.2.21): the hopping list, its length (<= 64), return 0; length > 8 -> negative return and "
@@ -58,7 +58,9 @@ def case_st(draw):
     if draw(st.integers(0, 3)) == 0:
         ca.add(0)
     ca = sorted(ca)[:64] if 0 not in ca else ([0] + sorted(x for x in ca if x)[:63])
-    ln = draw(st.one_of(st.integers(0, 9), st.sampled_from([0, 1, 8, 9, (len(ca) + 7) // 8])))
+    # the length is an octet: every value above 8 must be refused (a fifth of the cases; all of 9..255 are also enumerated)
+    ln = draw(st.one_of(st.integers(0, 9), st.integers(0, 9), st.sampled_from([0, 1, 8, 9, (len(ca) + 7) // 8]),
+                        st.sampled_from([0, 1, 8, 9, (len(ca) + 7) // 8]), st.integers(9, 255)))
     kind = draw(st.sampled_from(["random", "random", "ones", "single", "edge", "zero"]))
     nb = ln * 8
     if kind == "random" or nb == 0:
@@ -146,5 +148,28 @@ def oracle(case):
     return (cl, nt)
 
 
-SUBS = [Sub("decode_mobile_alloc", strategy=case_st(), oracle=oracle, examples={"quick": 6000, "thorough": 200000},
+def long_bitmaps(ctx, rec):
+    """every length 9..255 (the length parameter is one octet) x three contents x si4 x two cell allocations: refused, nothing touched"""
+    prepare(ctx)
+    fails, seen = [], set()
+    cas = [[], list(range(1, 65)), [0] + list(range(500, 563))]
+    for ln in range(9, 256):
+        for content in (bytes(ln), b"\xff" * ln, bytes((i * 37 + ln) & 0xff for i in range(ln))):
+            for si4 in (0, 1):
+                for ca in cas:
+                    case = {"ca": ca, "len": ln, "bitmap": content, "si4": si4, "pre": [ca[0]] if ca else [], "first": None}
+                    try:
+                        oracle(case)
+                        rec.bulk(1, 1, {"len>8 enumerated": 1})
+                    except Violation as v:
+                        if v.sig not in seen:
+                            seen.add(v.sig)
+                            fails.append(Failure("long_bitmaps_enumerated", case, v.sig, v.msg))
+    rec.exhaustive = True
+    rec.samples.append({"enumerated": "lengths 9..255 x {zeros, ones, pattern} x si4 x 3 cell allocations"})
+    return fails
+
+
+SUBS = [Sub("long_bitmaps_enumerated", fn=long_bitmaps), Sub("decode_mobile_alloc", strategy=case_st(), oracle=oracle, examples={"quick": 6000, "thorough": 200000},
             shards={"quick": 1, "thorough": 16}, prepare=prepare)]
+SUBS[0].replay = oracle
